@@ -167,9 +167,25 @@ func (f *filler) scalarArg(pt reflect.Type, label string) (reflect.Value, bool) 
 		if pt.Elem().Kind() != reflect.Uint8 {
 			return out, false
 		}
-		zero := rapid.IntRange(0, 4).Draw(f.t, label+"z") == 0
-		for i := 0; i < pt.Len(); i++ {
-			if !zero {
+		// id shapes: all zero, only the upper or only the lower half set (64-bit ids padded to 128 bits),
+		// a single non-zero byte, or random bytes
+		shape := rapid.IntRange(0, 7).Draw(f.t, label+"z")
+		n := pt.Len()
+		switch shape {
+		case 0: // all zero
+		case 1, 2: // half set
+			lo, hi := 0, n/2
+			if shape == 2 {
+				lo, hi = n/2, n
+			}
+			for i := lo; i < hi; i++ {
+				out.Index(i).SetUint(uint64(rapid.Byte().Draw(f.t, label)))
+			}
+			out.Index(hi - 1).SetUint(uint64(rapid.IntRange(1, 255).Draw(f.t, label+"nz")))
+		case 3: // single byte
+			out.Index(rapid.IntRange(0, n-1).Draw(f.t, label+"pos")).SetUint(uint64(rapid.IntRange(1, 255).Draw(f.t, label+"nz")))
+		default:
+			for i := 0; i < n; i++ {
 				out.Index(i).SetUint(uint64(rapid.Byte().Draw(f.t, label)))
 			}
 		}
